@@ -556,6 +556,8 @@ def c13(res, tier, rng, wd):
 @check("C14")
 def c14(res, tier, rng, wd):
     retry_object(res, "C14", wd, tier == "thorough")
+    # unbounded: for every 1 <= min <= max and any number of failures the delay is min*2^k capped at max, within [min, max]
+    vf.proof_run(res, "RetryProof (TLAPS: closed form and bounds for all min <= max)", "RetryProof.tla")
     design_client(res, "C14", [], ["DelaysFollowStrategy", "AttemptNotBeforeWake"], tier == "thorough")
     scs = e2.gen_c14(rng, tier == "thorough")
     run_e2(res, "C14", scs, wd, "c14")
